@@ -20,7 +20,12 @@ def run(run, binary, drv):
     shutil.copy(os.path.join(drv.HARNESS, "Cargo.lock"), os.path.join(out, "Cargo.lock"))
     t0 = time.time()
     b = subprocess.run(["cargo", "build", "--offline", "--bins", "--target-dir", os.path.join(drv.HARNESS, "target-macro", "target")], cwd=out, env=drv.env_offline(), stdout=subprocess.PIPE, stderr=subprocess.STDOUT, text=True)
-    drv.log(f"[C19] compiled {n_prog} programs x {per} documents in {time.time()-t0:.0f}s")
+    # the same programs with toml's insertion-ordered map (a quarter of them in the quick tier)
+    n_po = n_prog if run.tier != "quick" else max(1, n_prog // 4)
+    bpo = subprocess.run(["cargo", "build", "--offline", "--features", "po", "--target-dir", os.path.join(drv.HARNESS, "target-macro", "target-po")] + sum([["--bin", f"p{i}"] for i in range(n_po)], []), cwd=out, env=drv.env_offline(), stdout=subprocess.PIPE, stderr=subprocess.STDOUT, text=True)
+    drv.log(f"[C19] compiled {n_prog} programs x {per} documents (+{n_po} with preserve_order) in {time.time()-t0:.0f}s")
+    if b.returncode == 0 and bpo.returncode != 0:
+        run.inconclusive.append(f"the preserve_order build of the generated programs failed: {bpo.stdout[-600:]}")
     if b.returncode != 0:
         # attribute the compile error to a document: error locations point into src/bin/pN.rs
         locs = re.findall(r"--> src/bin/(p\d+)\.rs:(\d+):", b.stdout)
@@ -42,6 +47,8 @@ def run(run, binary, drv):
             run.inconclusive.append(f"generated programs do not build: {b.stdout[-800:]}")
         return
     bins = [os.path.join(drv.HARNESS, "target-macro", "target", "debug", f"p{i}") for i in range(n_prog)]
+    if bpo.returncode == 0:
+        bins += [os.path.join(drv.HARNESS, "target-macro", "target-po", "debug", f"p{i}") for i in range(n_po)]
 
     def go(path):
         r = subprocess.run([path], stdout=subprocess.PIPE, stderr=subprocess.PIPE, text=True, timeout=600)
@@ -59,12 +66,12 @@ def run(run, binary, drv):
         for ln in so.splitlines():
             if ln.startswith("DONE"):
                 docs += int(re.search(r"docs=(\d+)", ln).group(1))
-            elif ln.startswith("MISMATCH") or ln.startswith("PARSE-ERROR"):
+            elif ln.startswith("MISMATCH") or ln.startswith("PARSE-ERROR") or ln.startswith("LIBEQ-MISMATCH"):
                 mism += 1
                 idx = int(ln.split()[1])
                 text = subprocess.run([binary, "macrodoc", str(run.seed), str(idx)], stdout=subprocess.PIPE, text=True).stdout
                 if mism <= 8:
-                    sig = "macro-differs-from-parse" if ln.startswith("MISMATCH") else "macro-accepts-what-the-parser-refuses"
+                    sig = "macro-differs-from-parse" if ln.startswith("MISMATCH") else ("macro-table-not-equal-to-parsed-table" if ln.startswith("LIBEQ") else "macro-accepts-what-the-parser-refuses")
                     run.violations.append({"sig": sig, "detail": ln[:900], "workload": "macro", "index": idx, "input": text, "phase": "run"})
     # token shapes used, measured on the generated sources
     src_all = ""
